@@ -184,6 +184,7 @@ def _narrow_op(fn, ex, a):
 
 
 GATE = ("try", "match", "match-far", "isok", "bool", "plain-return")
+CMP_RET = ("Eq", "Gt")
 
 
 def _calls_of(F, key):
@@ -412,7 +413,7 @@ def summarize(F, key):
             continue
         if sig[0] == "branch" and not sig[2]:
             continue  # a test of nothing nameable (a std call's verdict): too vague to follow through a refactoring
-        if not all(reach(fn, [t2], ok_rets_l, (), dead) is not None for t2 in set(_am.values()) | {_els}):
+        if not all(reach(fn, [t2], ok_rets_l, (), dead) is not None for t2 in set(_am.values()) | {_els} if fn["blocks"][t2]["term"]["k"] != "unreachable"):
             continue  # one outcome only rejects (`if let Err(e) = read(..) { return Err(e) }` inside a loop): a rejection, not the loop's control
         loops.append(sig)
     loops.sort(key=lambda g: json.dumps(g))
@@ -579,6 +580,7 @@ def summarize(F, key):
     elif rty not in ("()", "!"):
         universe |= set(_stab(F, ex.local(0, 0, ())))
     ws_calls = sorted({_short_callee(c["key"]) for c in calls if c["ws"]})
+    sites = collections.Counter(_short_callee(c["key"]) for c in calls)
     gates = sorted({c["key"] for c in calls if c["kind"] in GATE or c["sink"]})
     gates_tested = sorted({c["key"] for c in calls if c["kind"] in GATE and c["kind"] != "plain-return"})  # the verdict is examined here, not handed on
     # how many Option / Result combinators consume values here (a `match` on a call's result may legitimately become one of them)
@@ -587,7 +589,7 @@ def summarize(F, key):
         if bi in live and any(re.search(r"^core::(option::Option|result::Result)::[a-z_]+$", nm) for nm in callee_names(t)):
             combs += 1
     return {"must": must, "order": order, "args": args, "guards": guards, "silent": silent, "assigns": assigns, "ret": ret,
-            "consts": const_census(fn), "universe": sorted(universe), "gates": gates, "gates_tested": gates_tested, "combs": combs, "rejects": rejects, "reject_vars": sorted(var_blocks), "each": each, "loops": loops, "phase": phase, "ret_alts": ret_alts, "flags": flags, "loop_anon": loop_anon, "silent_n": silent_n, "ws_calls": ws_calls,
+            "consts": const_census(fn), "universe": sorted(universe), "gates": gates, "gates_tested": gates_tested, "combs": combs, "rejects": rejects, "reject_vars": sorted(var_blocks), "each": each, "loops": loops, "phase": phase, "ret_alts": ret_alts, "flags": flags, "loop_anon": loop_anon, "silent_n": silent_n, "ws_calls": ws_calls, "sites": dict(sites), "argc": fn["argc"],
             "guard_n": sorted([json.loads(g), c] for g, c in gcount.items() if c > 1), "guard_all": dict(gcount)}
 
 
@@ -1057,6 +1059,18 @@ def _guard_present(ctx, cs, k, g, closures, helpers, relaxed=False, base_combs=N
                 return True
             if g[0] == "Eq" and g1 <= c2 and g2 <= c1:
                 return True
+            # a plain value may sit on either side (`let mut n = 0; while n == 0 { n = f() }` tests phi(0, f()) == 0; `if f() == 0` tests f() == 0):
+            # operators, fields, parameters and calls stay side-respecting
+            def _req(side):
+                # a bare parameter (`self` handed to a helper that may not even use it) is required only when it is all the side derives from
+                nv = {a for a in side if not a.startswith("val:")}
+                rich = {a for a in nv if not re.match(r"^arg\d+$", a)}
+                return rich if rich else nv
+            nv1, nv2 = _req(g1), _req(g2)
+            vals = {a for a in g1 | g2 if a.startswith("val:")}
+            if (nv1 or nv2) and vals <= (c1 | c2):
+                if (nv1 <= c1 and nv2 <= c2) or (g[0] == "Eq" and nv1 <= c2 and nv2 <= c1):
+                    return True
     if _guard_in_helper(ctx, k, [g[0], sorted(g1), sorted(g2)], closures):
         return True
     # the comparison moved into a closure (a loop body became the closure of an iterator adaptor): parameter paths do not carry over,
@@ -1079,6 +1093,13 @@ def _guard_present(ctx, cs, k, g, closures, helpers, relaxed=False, base_combs=N
                     # visible on the closure's own operand must be computed elsewhere in the cluster
                     if (d1 or d2) and (loc(g1) - d1) <= uni and (loc(g2) - d2) <= uni and (d1 or not loc(g1) or d2 == loc(g2)) :
                         return True
+    # the comparison is the predicate of an iterator adaptor now (`for p in v.windows(2) { if p[0] == p[1] {..} }` -> `v.windows(2).any(|p| p[0] == p[1])`):
+    # the closure only sees its parameter; everything the operands derived from is computed in the cluster
+    if (calls(g1) | calls(g2)) <= uni and (loc(g1) | loc(g2)) <= uni:
+        for x in closures:
+            if re.search(r"@(?:Iterator|DoubleEndedIterator|Itertools)::(any|all|find|find_map|position|filter|filter_map|take_while|skip_while|map_while)#\d+$", _closure_role(F, x)):
+                if any(cg[0] == g[0] for cg in cs.get(x)["guards"]) or (g[0] in ("Eq", "Gt") and any(c0 in CMP_RET for c0 in cs.get(x).get("ret_ops", []))):
+                    return True
     # a comparison against nothing stable (`x == None`, `v.len() == 0`) may be written as a predicate call (`x.is_none()`, `v.is_empty()`)
     if not g1 or not g2:
         side = g1 or g2
@@ -1309,8 +1330,14 @@ def check(ctx, prop, also=()):
                            key_detail="args:" + bc)
         # ---- guards
         parent = roles.get(role.split("@")[0]) if b.get("closure") else None
+        sig_changed = b.get("argc") is not None and b["argc"] != fn["argc"]
         for g in b.get("guards", []):
             n["guards"] += 1
+            if sig_changed:
+                # the (private) function takes different parameters now: positional parameter atoms cannot be compared
+                g = [g[0], [a for a in g[1] if not a.startswith("arg")], [a for a in g[2] if not a.startswith("arg")]]
+                if not g[1] and not g[2]:
+                    continue
             if _guard_present(ctx, cs, k, g, closures, helpers, base_combs=b.get("combs"), base_calls=b.get("ws_calls")):
                 continue
             if parent and parent != k:
@@ -1383,6 +1410,8 @@ def check(ctx, prop, also=()):
                                 have += c_n
                     elif (sub(g1, cg[1]) and sub(g2, cg[2])) or (g[0] == "Eq" and sub(g1, cg[2]) and sub(g2, cg[1])):
                         have += c_n
+            if have < cnt:
+                have += _count_in_helpers(ctx, k, [g[0], sorted(g1), sorted(g2)], closures)
             if have >= cnt:
                 continue
             bad += 1
@@ -1399,6 +1428,11 @@ def check(ctx, prop, also=()):
         for bk, cur_conds in cur.get("silent", {}).items():
             if _short_callee(bk) not in base_sinks:
                 continue  # a new state-changing call: nothing confirmed about it
+            sc_ = _short_callee(bk)
+            n_base_sites = b.get("sites", {}).get(sc_, 0)
+            n_cur_sites = cur.get("sites", {}).get(sc_, 0)
+            if n_base_sites and n_cur_sites < n_base_sites:
+                continue  # some of the confirmed call sites left the function (moved into an adaptor closure or a helper): "reached only when" now describes fewer sites
             cur_cores = [_core(F, sg) for (sg, _a) in cur_conds]
             refined = set()
             for (sig, arm) in sorted(cur_conds, key=lambda x: len(_core(F, x[0]))):
@@ -1647,6 +1681,32 @@ def _guard_in_helper(ctx, k, g, closures=()):
                     if g[0] == "Eq" and set(g[1]) <= set(sig[2]) and set(g[2]) <= set(sig[1]):
                         return True
     return False
+
+
+def _count_in_helpers(ctx, k, g, closures=()):
+    """How many comparisons of directly called workspace helpers match the signature once the helper's parameters are replaced by the
+    caller's argument expressions (a function split: `verify_impl` -> `verify_impl` + `follow_cycle`)."""
+    F = ctx.F
+    n = 0
+    seen = set()
+    for x in [k] + list(closures):
+        exf = plain_for(F, x)
+        for cbi, t in F.calls(x):
+            for gname in callee_names(t):
+                if gname not in F.fns or gname == x or F.fns[gname]["kind"] == "Closure" or (x, cbi, gname) in seen:
+                    continue
+                seen.add((x, cbi, gname))
+                gf = F.fns[gname]
+                args = [exf.operand(a) for a in t["args"]]
+                for bi, e, arms, els in switch_conditions(gf):
+                    if _is_try_switch(gf, bi):
+                        continue
+                    sig = cond_signature(F, subst(e, args))
+                    if not sig or sig[0] != g[0]:
+                        continue
+                    if (set(g[1]) <= set(sig[1]) and set(g[2]) <= set(sig[2])) or (g[0] == "Eq" and set(g[1]) <= set(sig[2]) and set(g[2]) <= set(sig[1])):
+                        n += 1
+    return n
 
 
 def _matches_key(fn, t, key):
